@@ -47,7 +47,7 @@ class World(object):
 
     def __init__(self, sv, rnd):
         self.calls = {}
-        self.cfg = jsonrpclib.config.Config(version=1.0 if sv == "1" else 2.0)
+        self.cfg = jsonrpclib.config.Config(version=rnd.choice([1.0, 1]) if sv == "1" else rnd.choice([2.0, 2.0, 2]))
         if rnd.random() < 0.5:
             # a serialisation handler that refuses the value it is given: the reply is the conversion error, as without
             # it, and the Config is left exactly as it was
@@ -137,7 +137,7 @@ class World(object):
 def method_name(mc, j, rnd):
     return {"ok": "ok_%d", "raise": "raise_%d", "typeerr": "typeerr_%d", "badarity": "badarity_%d", "convfail": "convfail_%d",
             "retfault": "retfault_%d",
-            "unknown": rnd.choice(["nope_%d", "ok_%d.x", "Ok_%d", "sub_%d", "méthode_%d", "system.listMethods_%d"]),
+            "unknown": rnd.choice(["nope_%d", "ok_%d.x", "Ok_%d", "sub_%d", "méthode_%d", "system.listMethods_%d", "lone\ud83d_%d"]),
             "inst_pub": "pub_%d", "inst_nested": "sub.meth_%d",
             "inst_priv": rnd.choice(["_priv_%d", "__class___%d"]),
             "inst_nested_priv": rnd.choice(["sub._hid_%d", "_sub.meth_%d", "sub.__dict___%d"])}[mc] % j
@@ -262,6 +262,11 @@ def run_body(text, sv, dk, rnd, src, world=None, jc=None, pre=None, foreign=None
         elif res == "":
             out["kind"] = "empty"
         else:
+            try:
+                res.encode("utf-8")
+            except UnicodeError as ue:
+                # a "text" that no transport can send is not a JSON text
+                raise AssertionError("reply cannot be encoded as UTF-8: %s" % str(ue)[:60])
             try:
                 pv = json.loads(res)
                 out["kind"] = "json"
@@ -480,6 +485,14 @@ def gen_batch(n, rnd):
         r = run_body(dumps(ents, rnd), sv, dk, rnd, "batch")
         if r:
             recs.append(r)
+    # a well-formed request between characters that are white space for Python's str.strip() but not for JSON
+    okbody = json.dumps({"jsonrpc": "2.0", "id": 1, "method": "ok_1", "params": [1]})
+    pads = ["\x0b", "\x0c", "\x1c", "\x1f", "\x85", "\xa0", "\u2028", "\u3000", "\u2003"]
+    for pad in pads:
+        for text in (pad + okbody, okbody + pad, pad + "[" + okbody + "]" + pad):
+            r = run_body(text, rnd.choice("12"), rnd.choice(["default", "custom"]), rnd, "degenerate")
+            if r:
+                recs.append(r)
     # degenerate bodies
     for text in ["", " ", "null", "false", "0", '""', "[]", "{}", "true", "5", '"abc"', "1.5", "[[]]", "[null]", "[1,2]", "[{}]", "{\"a\":1}",
                  "nul", "{", "[", "}", "﻿{}", "{\"jsonrpc\":\"2.0\"", "\x00", "é", "[,]", "{\"a\":}", "'a'", "tru", "01"]:
